@@ -60,7 +60,7 @@ func gRec(r RecIn) string {
 }
 
 func gTable(t string) string {
-	return map[string]string{"recs": "TRecs", "bosses": "TBosses", "kids": "TKids", "pets": "TPets"}[t]
+	return map[string]string{"recs": "TRecs", "bosses": "TBosses", "kids": "TKids", "pets": "TPets", "keepers": "TKeepers"}[t]
 }
 
 func gRow(r Row) string { return "(" + gTable(r.Tbl) + ", " + lib.Z(r.Tag) + ", " + lib.Z(r.Val) + ")" }
@@ -160,7 +160,11 @@ func term(in Input, o Obs) string {
 	kind := map[string]string{"create_in_batches": fmt.Sprintf("(OCreateInBatches %s)", lib.Z(int64(in.Batch))), "create": "OCreate", "save": "OSave", "update": "OUpdate", "updates": "OUpdate",
 		"update_column": "OUpdateColumn", "update_columns": "OUpdateColumn", "delete": "ODelete", "find": "OFind", "first": "OFirst"}[in.Op]
 	boss, kids, pets := assocLists(in)
-	assocs := lib.App("mk_assocs", "("+gTy("Boss")+", "+gTy("Kid")+", "+gTy("Pet")+")", gRecs(boss), gRecs(kids), gRecs(pets))
+	keepers := []RecIn{}
+	if in.Graph == "keeper_cycle" && in.GraphKeeper != nil && len(kids) > 0 {
+		keepers = append(keepers, *in.GraphKeeper) // the one shared keeper, saved once from inside the kids' create
+	}
+	assocs := lib.App("mk_assocs", "("+gTy("Boss")+", "+gTy("Kid")+", "+gTy("Pet")+")", gRecs(boss), gRecs(kids), gRecs(pets), gTy("Keeper"), gRecs(keepers))
 	txm := map[string]string{"default": "TxDefault", "outer": "TxOuter", "skipdefault": "TxSkipDefault"}[in.TxMode]
 	setkey := "KField"
 	if in.SetKey == "db" {
@@ -216,6 +220,24 @@ func mixedPhase(recv string, a, b int) bool {
 // once it does, the shape joins the main stream and the mirror in assocLists de-duplicates it.
 var keylessSavedOnce bool
 
+// rootVisitedOnce: does the tree under test keep the operation's OWN record out of the association saves
+// when a child points back to it (has-many child with a belongs-to back-pointer to its owner)?  While it
+// does not (the owner's hooks fire a second time from inside the children's create), that shape is the
+// known finding cyclic-graph-operation-record-saved-again.
+var rootVisitedOnce bool
+
+func probeRootVisited(w *World) bool {
+	o := w.Run(Input{Op: "create", Type: "T1", Shape: "ptr_struct", TxMode: "default", PayVia: "map_db", SetKey: "db", Graph: "owner_back",
+		Recs: []RecIn{{Tag: 993, Val: 1, Kids: []RecIn{{Tag: 994, Val: 1}}}}})
+	n := 0
+	for _, e := range o.Log {
+		if e.Type == "T1" && e.Hook == "BeforeSave" {
+			n++
+		}
+	}
+	return n == 1
+}
+
 func probeKeyless(w *World) bool {
 	o := w.Run(Input{Op: "create", Type: "T0", Shape: "ptr_slice_ptr", TxMode: "default", PayVia: "map_db", SetKey: "db",
 		Shared: []RecIn{{Tag: 990, Val: 1}}, Recs: []RecIn{{Tag: 991, Val: 1, BossIx: 1}, {Tag: 992, Val: 2, BossIx: 1}}})
@@ -242,6 +264,13 @@ func sig(in Input) string {
 		case "update", "updates":
 			if mixedPhase(recv, 0, 4) || mixedPhase(recv, 5, 3) {
 				return "mixed-receivers-on-struct-value"
+			}
+		}
+	}
+	if in.Graph == "owner_back" && !rootVisitedOnce && in.Type == "T1" {
+		for _, rc := range in.Recs {
+			if len(rc.Kids) > 0 {
+				return "cyclic-graph-operation-record-saved-again"
 			}
 		}
 	}
@@ -442,6 +471,23 @@ func (g *gen) input(edge bool) Input {
 			}
 		}
 	}
+	// cyclic in-memory graphs over the kids
+	if (in.Op == "create" || in.Op == "save") && in.Shape != "struct" && in.Shape != "array_val" {
+		nk, other := 0, false
+		for _, rc := range in.Recs {
+			nk += len(rc.Kids)
+			if rc.Boss != nil || rc.BossIx > 0 || len(rc.Pets) > 0 {
+				other = true
+			}
+		}
+		if nk > 0 && !other && r.Chance(1, 2) {
+			in.Graph = "keeper_cycle"
+			in.GraphKeeper = &RecIn{Tag: g.tag(), Val: int64(r.Range(1, 9))}
+			if in.Type == "T1" && r.Chance(1, 3) {
+				in.Graph, in.GraphKeeper = "owner_back", nil
+			}
+		}
+	}
 	if in.Op == "updates" || in.Op == "update_columns" {
 		in.PayVia = lib.Pick(r, []string{"map_db", "map_field", "struct"})
 	} else if in.Op == "update" || in.Op == "update_column" {
@@ -524,8 +570,10 @@ func main() {
 	w := open(false)
 	wNoRet := open(true) // the dialector believes SQLite cannot RETURNING: Exec + LastInsertId
 	keylessSavedOnce = probeKeyless(w)
+	rootVisitedOnce = probeRootVisited(w)
 	out := lib.NewOut(a.Out, "C13")
 	out.Extra["keyless_shared_belongs_to_saved_once"] = keylessSavedOnce
+	out.Extra["operation_record_not_saved_again_in_cyclic_graph"] = rootVisitedOnce
 	out.PerFile = 150
 
 	runOne := func(in Input) Obs {
@@ -603,7 +651,7 @@ func main() {
 
 	g := &gen{r: lib.NewRng(a.Seed)}
 	r := g.r
-	budget := 1420
+	budget := 1500
 	if a.Tier == "thorough" {
 		budget = 5000
 	}
@@ -675,6 +723,11 @@ func main() {
 						{Tag: 101, Val: 1, Boss: &RecIn{Tag: 301, Val: 3}, Kids: kidsOf(200), Pets: []RecIn{{Tag: 401, Val: 4}}},
 						{Tag: 102, Val: 2, Kids: []RecIn{{Tag: 211, Val: 5}}}}},
 					{Op: "create", Type: ty, Shape: "ptr_struct", Recs: []RecIn{{Tag: 101, Val: 1, Boss: &RecIn{Tag: 301, Val: 3}, Kids: kidsOf(200)}}},
+					// cyclic graphs: the kids point to a keeper whose wards they are; the kids point back to their owner
+					{Op: "create", Type: ty, Shape: "ptr_struct", Graph: "keeper_cycle", GraphKeeper: &RecIn{Tag: 501, Val: 5}, Recs: []RecIn{{Tag: 101, Val: 1, Kids: kidsOf(200)}}},
+					{Op: "create", Type: ty, Shape: "ptr_slice_ptr", Graph: "keeper_cycle", GraphKeeper: &RecIn{Tag: 502, Val: 5}, Recs: []RecIn{{Tag: 101, Val: 1, Kids: kidsOf(200)}, {Tag: 102, Val: 2, Kids: kidsOf(210)}}},
+					{Op: "save", Type: ty, Shape: "ptr_slice_val", Graph: "keeper_cycle", GraphKeeper: &RecIn{Tag: 503, Val: 5}, Recs: []RecIn{{Tag: 101, Val: 1, Kids: kidsOf(200)}, {Tag: 102, Val: 2}}},
+					{Op: "create", Type: ty, Shape: "ptr_struct", Graph: "owner_back", Recs: []RecIn{{Tag: 101, Val: 1, Kids: kidsOf(200)}}},
 					// several owners of one Create(&slice) sharing ONE belongs-to record (same pointer, key set)
 					{Op: "create", Type: ty, Shape: "ptr_slice_ptr", Shared: []RecIn{{ID: 77, Tag: 301, Val: 3}}, Recs: []RecIn{
 						{Tag: 101, Val: 1, BossIx: 1}, {Tag: 102, Val: 2, BossIx: 1}, {Tag: 103, Val: 3, BossIx: 1}}},
@@ -847,6 +900,6 @@ func main() {
 			}
 		}
 	}
-	out.Extra["rule"] = "cases = operation {Create, CreateInBatches (every relation of length to batch size), Save, Update, Updates(map by column / by field name / struct), UpdateColumn(s), Delete, Find, First} x 15 model types (hook presence x pointer/value receivers, incl. none, mixed, wrong signature, and single value-receiver hooks whose phase partner is absent) x argument shape {*T, T, []T, *[]T, []*T, *[]*T, *[n]T, [n]T, *[n]*T, [n]*T} x 0..6 records x has-many/belongs-to values with hooks of their own (incl. one keyed belongs-to record shared by several owners of a slice) x SkipHooks x {default transaction, explicit outer transaction, SkipDefaultTransaction} x failure injected at one or two hook invocations (plain errors and errors wrapping gorm's sentinel errors ErrRecordNotFound / ErrInvalidTransaction / ErrMissingWhereClause / ErrInvalidValue / ErrEmptySlice / ErrInvalidData) x SetColumn from before-hooks (per record and, with the fromCallbacks flag, for every record of a slice) x RETURNING / no-RETURNING dialect capability x Clauses(Returning) on update/delete x Delete with Select(has-many) x Find/First with Preload of has-many values carrying AfterFind hooks x a type whose hook methods have the wrong signature; distinct = distinct (op,type,shape,n,associations,skip,txmode,fails,sets,payload form) tuples; non-trivial = at least 2 hook invocations observed and (a failing invocation was reached, or more than one record, or a SetColumn call)"
+	out.Extra["rule"] = "cases = operation {Create, CreateInBatches (every relation of length to batch size), Save, Update, Updates(map by column / by field name / struct), UpdateColumn(s), Delete, Find, First} x 15 model types (hook presence x pointer/value receivers, incl. none, mixed, wrong signature, and single value-receiver hooks whose phase partner is absent) x argument shape {*T, T, []T, *[]T, []*T, *[]*T, *[n]T, [n]T, *[n]*T, [n]*T} x 0..6 records x has-many/belongs-to values with hooks of their own (incl. one belongs-to record shared by several owners of a slice, and cyclic graphs: kids holding a belongs-to to a keeper whose has-many wards they are, kids pointing back to their owner) x SkipHooks x {default transaction, explicit outer transaction, SkipDefaultTransaction} x failure injected at one or two hook invocations (plain errors and errors wrapping gorm's sentinel errors ErrRecordNotFound / ErrInvalidTransaction / ErrMissingWhereClause / ErrInvalidValue / ErrEmptySlice / ErrInvalidData) x SetColumn from before-hooks (per record and, with the fromCallbacks flag, for every record of a slice) x RETURNING / no-RETURNING dialect capability x Clauses(Returning) on update/delete x Delete with Select(has-many) x Find/First with Preload of has-many values carrying AfterFind hooks x a type whose hook methods have the wrong signature; distinct = distinct (op,type,shape,n,associations,skip,txmode,fails,sets,payload form) tuples; non-trivial = at least 2 hook invocations observed and (a failing invocation was reached, or more than one record, or a SetColumn call)"
 	lib.Must(out.Flush())
 }
